@@ -2,7 +2,7 @@ import contextlib
 from collections.abc import Mapping
 from dataclasses import replace
 from string import Template
-from typing import Any, Callable, NamedTuple
+from typing import Any, Callable, NamedTuple, Optional
 
 from ...code_tools.cascade_namespace import BuiltinCascadeNamespace, CascadeNamespace
 from ...code_tools.code_builder import CodeBuilder
@@ -119,6 +119,19 @@ class BuiltinModelDumperGen(ModelDumperGen):
         )
         self._id_to_field: dict[str, OutputField] = {field.id: field for field in self._shape.fields}
         self._model_identity = model_identity
+        self._sieved_fields = self._collect_sieved_fields(self._name_layout.crown)
+
+    def _collect_sieved_fields(self, crown: OutCrown) -> set[str]:
+        result: set[str] = set()
+        if isinstance(crown, OutDictCrown):
+            for key, sub_crown in crown.map.items():
+                if key in crown.sieves and isinstance(sub_crown, OutFieldCrown):
+                    result.add(sub_crown.id)
+                result |= self._collect_sieved_fields(sub_crown)
+        elif isinstance(crown, OutListCrown):
+            for sub_crown in crown.map:
+                result |= self._collect_sieved_fields(sub_crown)
+        return result
 
     def produce_code(self, closure_name: str) -> tuple[str, Mapping[str, object]]:
         body_builder = CodeBuilder()
@@ -225,6 +238,9 @@ class BuiltinModelDumperGen(ModelDumperGen):
     ):
         raw_access_expr = self._gen_access_expr(namespace, field)
         v_element_expr = self._get_trail_element_expr(namespace, field)
+        if field.id in self._sieved_fields:
+            # a sieve (omit_default) judges the value of the field, not its dumped form, so keep the value
+            raw_access_expr = f"({self._v_raw_field(field)} := {raw_access_expr})"
 
         if self._fields_dumpers[field.id] == as_is_stub:
             on_access_ok_stmt = Template(on_access_ok).substitute(expr=raw_access_expr)
@@ -575,6 +591,7 @@ class BuiltinModelDumperGen(ModelDumperGen):
                     self._gen_dict_sieved_append(
                         state, crown.sieves[key], key,
                         element_expr=ElementExpr("value", can_inline=True),
+                        sieve_input_expr=self._v_raw_field(self._id_to_field[sub_crown.id]),
                     )
                 else:
                     state.builder(f"{state.v_crown}[{key!r}] = value")
@@ -582,6 +599,10 @@ class BuiltinModelDumperGen(ModelDumperGen):
             element_expr = self._get_element_expr(state, key, sub_crown)
             self._gen_dict_sieved_append(
                 state, crown.sieves[key], key, element_expr,
+                sieve_input_expr=(
+                    self._v_raw_field(self._id_to_field[sub_crown.id])
+                    if isinstance(sub_crown, OutFieldCrown) else None
+                ),
             )
 
     def _gen_dict_sieved_append(
@@ -590,8 +611,9 @@ class BuiltinModelDumperGen(ModelDumperGen):
         sieve: Sieve,
         key: str,
         element_expr: ElementExpr,
+        sieve_input_expr: Optional[str] = None,
     ):
-        condition = self._get_sieve_condition(state, sieve, key, element_expr.expr)
+        condition = self._get_sieve_condition(state, sieve, key, sieve_input_expr or element_expr.expr)
         if element_expr.can_inline:
             state.builder += f"""
                 if {condition}:
